@@ -433,6 +433,9 @@ impl Ctx {
 
     /// Health floor: class `label` must make up at least `min_frac` of `of`.
     pub fn floor(&mut self, label: &str, of: u64, min_frac: f64) {
+        if !self.violations.is_empty() {
+            return; // shards stop at their first failure; class counts are then not meaningful
+        }
         let c = self.cls.count(label);
         if (c as f64) < (of as f64) * min_frac {
             self.inconclusive(format!(
@@ -442,6 +445,9 @@ impl Ctx {
     }
 
     pub fn floor_abs(&mut self, label: &str, min: u64) {
+        if !self.violations.is_empty() {
+            return;
+        }
         let c = self.cls.count(label);
         if c < min {
             self.inconclusive(format!(
